@@ -39,7 +39,7 @@ Net == [R0 EXCEPT !.code = NetErr]
 Lite == Level = "lite"
 Full == Level = "full"
 ErrShapes == IF Lite THEN {<<"json", "errjson">>, <<"none", "empty">>}
-             ELSE {<<"json", "errjson">>, <<"json", "wsjson">>, <<"jsonp", "trunc">>, <<"json", "huge">>, <<"json", "endless">>,
+             ELSE {<<"json", "errjson">>, <<"json", "wsjson">>, <<"json", "wsarr">>, <<"jsonp", "trunc">>, <<"json", "huge">>, <<"json", "endless">>,
                    <<"text", "garbage">>, <<"none", "empty">>, <<"bad", "errjson">>}
 Ok2(step) == IF 200 \in OkCodes(step) THEN 204 ELSE 200
 ErrCodes(step) == IF Lite THEN {Ok2(step), 404} ELSE {100, Ok2(step), 304, 404, 500}
@@ -88,8 +88,8 @@ OkAlpha(step, first) ==
          {WithDig([R0 EXCEPT !.code = c, !.loc = l], d) : c \in {201, 202}, l \in {"none", "path"}, d \in (IF Lite THEN DigsLite ELSE Digs)}
     [] step = "referrers" ->
          {[R0 EXCEPT !.body = b[1], !.items = b[2], !.bend = e, !.ctype = "json"] :
-             b \in {<<"list", 0>>, <<"list", 1>>, <<"list", 2>>, <<"list", 3>>, <<"wszero", 0>>, <<"wserr", 0>>,
-                    <<"empty", 0>>, <<"trunc", 0>>, <<"garbage", 0>>, <<"hugelist", 0>>}, e \in Ends}
+             b \in {<<"list", 0>>, <<"list", 1>>, <<"list", 2>>, <<"list", 3>>, <<"list", 4 * DefaultN>>, <<"wszero", 0>>, <<"wserr", 0>>,
+                    <<"empty", 0>>, <<"trunc", 0>>, <<"garbage", 0>>, <<"errjson", 0>>, <<"wsarr", 0>>}, e \in Ends}
     [] step = "post1" -> {[R0 EXCEPT !.code = 202, !.loc = l] : l \in Locs}
     [] step = "start" ->
          LET mms == {<<"none", 0>>, <<"bad", 0>>, <<"num", 1>>, <<"num", 3>>, <<"num", Huge>>} IN
@@ -121,7 +121,7 @@ OkAlpha(step, first) ==
              i \in cnts, lk \in (IF thin THEN {"none", "ok", "badurl"} ELSE {"none", "empty", "ok", "nolt", "nogt", "badurl"}),
              e \in (IF thin THEN {"eof"} ELSE Ends)}
          \cup {[R0 EXCEPT !.body = b, !.ctype = "json", !.link = lk] :
-                 b \in (IF thin THEN {"wszero", "garbage"} ELSE {"wszero", "wserr", "empty", "trunc", "garbage"}),
+                 b \in (IF thin THEN {"wszero", "garbage"} ELSE {"wszero", "wserr", "empty", "trunc", "garbage", "errjson", "wsarr"}),
                  lk \in (IF thin THEN {"ok"} ELSE {"none", "ok"})}
          \cup {[R0 EXCEPT !.body = "list", !.items = N, !.link = "none", !.bend = "cut", !.ctype = "json"]}
     [] OTHER -> {}
@@ -180,7 +180,7 @@ Rec(e) == h' = Append(h, e)
 
 \* scaled numbers for the export
 Sc(v) == IF v >= Threshold THEN [t |-> 1, k |-> v - Threshold] ELSE [t |-> 0, k |-> v]
-Sd(v) == IF v >= DefaultN - 1 /\ N = DefaultN THEN [t |-> 1, k |-> v - DefaultN] ELSE [t |-> 0, k |-> v]
+Sd(v) == IF v >= DefaultN - 1 THEN [t |-> (v + 1) \div DefaultN, k |-> v - ((v + 1) \div DefaultN) * DefaultN] ELSE [t |-> 0, k |-> v]
 Sh(v) == IF v >= Huge THEN [t |-> 1, k |-> v - Huge] ELSE [t |-> 0, k |-> v]
 Xr(r) == [code |-> r.code, loc |-> r.loc, rf |-> r.rf, ra |-> r.ra, rb |-> r.rb, cl |-> Sc(r.cl), dig |-> r.dig, halg |-> r.halg,
           hcont |-> r.hcont, link |-> r.link, ctype |-> r.ctype, mf |-> r.mf, mv |-> Sh(r.mv), crf |-> r.crf, crtot |-> r.crtot,
